@@ -40,7 +40,15 @@ fn sig_of(prop: &str, msg: &str) -> String {
 }
 
 fn report(prop: &str, known: &KnownFindings, rep: &ProgReplay, violations: &mut usize) {
-    let sig = sig_of(prop, &rep.message);
+    let mut sig = sig_of(prop, &rep.message);
+    if prop == "C09" {
+        if let Some(p) = &rep.program {
+            let primed = p.types.iter().any(|t| t.name.contains('\'')) || p.rels.iter().any(|r| r.name.contains('\'')) || p.rules.iter().any(|r| r.name.as_deref().map(|n| n.contains('\'')).unwrap_or(false));
+            if primed && rep.message.contains("rustc rejects") {
+                sig = "C09:primed-symbol-name".to_string();
+            }
+        }
+    }
     if let Some(k) = known.known(prop, &sig) {
         println!("KNOWN-FINDING: property={} {}", prop, k.what);
         return;
@@ -132,7 +140,7 @@ pub fn c09_one(p: &Program, source: &str) -> (Result<(), String>, Vec<&'static s
 
 pub fn run_c09(tier: &str, seed: u64) -> campaign::CampaignResult {
     let start = Instant::now();
-    let np = env_usize("EQV_NPROG", if tier == "thorough" { 1500 } else { 96 });
+    let np = env_usize("EQV_NPROG", if tier == "thorough" { 1500 } else { 40 });
     let known = KnownFindings::load();
     let mut ev = Evidence::new("C09", tier, seed, "exploration");
     let profiles: Vec<String> = vec!["wide".into(), "wide".into(), "free".into(), "with_enums".into()];
@@ -156,7 +164,7 @@ pub fn run_c09(tier: &str, seed: u64) -> campaign::CampaignResult {
             ev.sample(json!({"program": pc.source, "features": feats}), 3);
         }
         if let Err(msg) = res {
-            let reduced = reduce_static(&pc.program, 25, &|q| c09_one(q, &print::plain(q)).0.is_err());
+            let reduced = reduce_static(&pc.program, 8, &|q| c09_one(q, &print::plain(q)).0.is_err());
             let src = print::plain(&reduced);
             let msg2 = c09_one(&reduced, &src).0.err().unwrap_or_else(|| msg.clone());
             let rep = ProgReplay { kind: "c09".into(), property: "C09".into(), program: Some(reduced), source: src, message: msg2, detail: json!({}), seed };
